@@ -35,8 +35,8 @@ for sid in ids:
             print(sid, 'PATCH DOES NOT APPLY', out[-200:].replace('\n', ' '))
             continue
         py = '/venv/bin/python'
-        rc1, o1 = run('%s %s' % (py, os.path.join(d, 'demo.py')), {'TREE': clean, 'PYTHONPATH': clean + '/Python'}, 600)
-        rc2, o2 = run('%s %s' % (py, os.path.join(d, 'demo.py')), {'TREE': mut, 'PYTHONPATH': mut + '/Python'}, 600)
+        rc1, o1 = run('%s %s' % (py, os.path.join(d, 'demo.py')), {'TREE': clean, 'PYTHONPATH': clean + '/Python', 'TMPDIR': clean}, 600)
+        rc2, o2 = run('%s %s' % (py, os.path.join(d, 'demo.py')), {'TREE': mut, 'PYTHONPATH': mut + '/Python', 'TMPDIR': mut}, 600)
         r['demo_clean'] = 'PASS' if rc1 == 0 else 'rc%d %s' % (rc1, o1[-200:])
         r['demo_mutant'] = 'FAIL' if rc2 != 0 else 'PASS(!)'
         r['demo_mutant_msg'] = ([l for l in o2.splitlines() if l.startswith('FAIL')] or [''])[0][:300]
